@@ -68,6 +68,9 @@ func (p *MultilineAction) Do(event *pipeline.Event) pipeline.ActionResult {
 	if event.IsTimeoutKind() {
 		p.logger.Errorf("can't read next sequential event for k8s pod stream")
 		p.resetLogBuf()
+		// the action is not busy any more and may be handed another stream next:
+		// nothing of the line that timed out may survive
+		p.skipNextEvent = false
 		return pipeline.ActionDiscard
 	}
 
